@@ -1,8 +1,124 @@
-import Pyrtma.Spec.Manager
+import Pyrtma.Proofs.Manager
+/-!
+# C01 — pub/sub routing is exact: right recipients, exactly once, unmodified
+
+Theorems about `Model/Manager.lean`'s `forward` (the model of `MessageManager.forward_message`, including everything it
+triggers recursively: removal of subscribers whose write fails, the CLIENT_CLOSED / FAILED_MESSAGE / RTMA_LOG forwards
+nested inside, removals those cause in turn …), for **every** state, every frame, every fuel, every iteration order of
+the subscriber sets (`cfg.order` is an arbitrary function), every set of failing sockets and every writable set.
+
+`dataSends (· == .data k) out` is the list of `(recipient, frame)` for every copy of input frame `k` found in `out`.
+-/
 namespace Pyrtma.C01
 open Pyrtma.Mgr
 
-/-- placeholder while the proofs are being written (replaced below) -/
-theorem wip : True := trivial
+/-- is this the copy of input frame `k`? -/
+abbrev isCopy (k : Nat) : Body → Bool := fun b => b == .data k
+
+/-- the destination ids of the header are outside the valid range -/
+def outOfRange (cfg : Cfg) (f : Frame) : Bool :=
+  (f.dest < 0 || f.dest > cfg.maxModules) || (f.destHost < 0 || f.destHost > cfg.maxHosts)
+
+theorem recipients_count (cfg : Cfg) (s : State) (t t' : Int) :
+    recipients cfg (countMsg cfg s t') t = recipients cfg s t := by
+  unfold recipients countMsg; split <;> rfl
+
+/-- **Routing is exact.**  Forwarding the data frame `f` (input frame `k`) appends, to whatever copies of `k` were
+already written, exactly one copy per occurrence in the subscriber snapshot `subscribers(type) ++ subscribers(ALL)`
+of a module that is still in the table, whose socket works, and that is writable and passes the destination filter
+(destination 0, or its own id, or it is a logger) or is a logger — and nothing when the destination module/host id is
+out of range.  Each copy is the frame `f` itself: type, source, destination, declared length and payload identity
+unchanged.  This holds whatever happens *during* the delivery (write failures, nested removals and notices). -/
+theorem routing_exact (cfg : Cfg) (fuel : Nat) (s : State) (f : Frame) (k : Nat)
+    (hb : f.body = .data k) (hc : s.crashed = none) :
+    dataSends (isCopy k) (forward cfg (fuel + 1) s f).out =
+      dataSends (isCopy k) s.out ++
+        (if outOfRange cfg f then []
+         else ((recipients cfg s f.mtype).filter (elig f s)).map (fun u => (u, f))) := by
+  have hB := tag_data k
+  have ih := forward_ok hB cfg fuel
+  have hBf : isCopy k f.body = true := by simp [isCopy, hb]
+  unfold forward
+  simp only [hc, Option.isSome_none, Bool.false_eq_true, if_false]
+  have pc := countMsg_pres cfg s f.mtype
+  have qc : dataSends (isCopy k) (countMsg cfg s f.mtype).out = dataSends (isCopy k) s.out := by rw [countMsg_out]
+  by_cases h1 : (f.dest < 0 || f.dest > cfg.maxModules) = true
+  · have hr : outOfRange cfg f = true := by unfold outOfRange; rw [h1]; rfl
+    rw [hr]
+    simp only [h1, if_true]
+    have := logAt_ok hB cfg ih 40 (countMsg cfg s f.mtype)
+    rw [this.2, qc]; simp
+  · have h1' : (f.dest < 0 || f.dest > cfg.maxModules) = false := by simpa using h1
+    simp only [h1', Bool.false_eq_true, if_false]
+    by_cases h2 : (f.destHost < 0 || f.destHost > cfg.maxHosts) = true
+    · have hr : outOfRange cfg f = true := by unfold outOfRange; rw [h1', h2]; rfl
+      rw [hr]
+      simp only [h2, if_true]
+      have := logAt_ok hB cfg ih 40 (countMsg cfg s f.mtype)
+      rw [this.2, qc]; simp
+    · have h2' : (f.destHost < 0 || f.destHost > cfg.maxHosts) = false := by simpa using h2
+      have hr : outOfRange cfg f = false := by unfold outOfRange; rw [h1', h2']; rfl
+      rw [hr]
+      simp only [h2', Bool.false_eq_true, if_false]
+      have := deliver_ok hB cfg ih f (recipients cfg (countMsg cfg s f.mtype) f.mtype) (countMsg cfg s f.mtype)
+      rw [this.2, qc, recipients_count]
+      have he : (recipients cfg s f.mtype).filter (elig f (countMsg cfg s f.mtype)) =
+                (recipients cfg s f.mtype).filter (elig f s) := by
+        congr 1; funext v; exact elig_pres pc f v
+      rw [he]
+      have hBf' : ((fun b => b == Body.data k) f.body) = true := hBf
+      simp only [hBf', if_true]
+
+/-- **No other module receives it, and nothing else is disturbed**: forwarding frame `k` writes no copy of any
+other input frame `k'`. -/
+theorem other_frames_untouched (cfg : Cfg) (fuel : Nat) (s : State) (f : Frame) (k k' : Nat)
+    (hb : f.body = .data k) (hne : k' ≠ k) :
+    dataSends (isCopy k') (forward cfg fuel s f).out = dataSends (isCopy k') s.out :=
+  (forward_ok (tag_data k') cfg fuel s f (by simp [isCopy, hb]; omega)).2
+
+/-- **Manager-originated forwards never carry client data**: forwarding any frame that is not a copy of an input frame
+(CLIENT_INFO, CLIENT_CLOSED, FAILED_MESSAGE, TIMING, TRAFFIC, ACTIVE_CLIENTS, RTMA_LOG …) writes no data copy at all. -/
+theorem manager_frames_carry_no_data (cfg : Cfg) (fuel : Nat) (s : State) (g : Frame) (k : Nat)
+    (hg : ∀ j, g.body ≠ .data j) :
+    dataSends (isCopy k) (forward cfg fuel s g).out = dataSends (isCopy k) s.out :=
+  (forward_ok (tag_data k) cfg fuel s g (by simp [isCopy]; exact hg k)).2
+
+/-- **Out-of-range destinations are delivered to nobody.** -/
+theorem out_of_range_dropped (cfg : Cfg) (fuel : Nat) (s : State) (f : Frame) (k : Nat)
+    (hb : f.body = .data k) (hc : s.crashed = none) (hr : outOfRange cfg f = true) :
+    dataSends (isCopy k) (forward cfg (fuel + 1) s f).out = dataSends (isCopy k) s.out := by
+  rw [routing_exact cfg fuel s f k hb hc]; simp [hr]
+
+/-- **Exactly once**: when the subscriber snapshot has no repetition (which is the case whenever no module is both in
+the type's subscriber set and in the subscribe-to-all set, see `Inv` in C02/C07), every module gets at most one copy,
+and it gets one iff it is in the snapshot and eligible. -/
+theorem exactly_once (cfg : Cfg) (fuel : Nat) (s : State) (f : Frame) (k : Nat)
+    (hb : f.body = .data k) (hc : s.crashed = none) (hr : outOfRange cfg f = false)
+    (hnd : (recipients cfg s f.mtype).Nodup) (hfresh : dataSends (isCopy k) s.out = []) (u : Nat) :
+    ((dataSends (isCopy k) (forward cfg (fuel + 1) s f).out).filter (·.1 == u)).length =
+      if u ∈ recipients cfg s f.mtype ∧ elig f s u = true then 1 else 0 := by
+  rw [routing_exact cfg fuel s f k hb hc, hfresh]
+  simp only [hr, Bool.false_eq_true, if_false, List.nil_append, List.filter_map]
+  have hnd' : ((recipients cfg s f.mtype).filter (elig f s)).Nodup := hnd.filter (elig f s)
+  rw [List.length_map]
+  have hfe : (((recipients cfg s f.mtype).filter (elig f s)).filter ((fun p : Nat × Frame => p.1 == u) ∘ fun u => (u, f))) =
+      ((recipients cfg s f.mtype).filter (elig f s)).filter (· == u) := by
+    congr 1
+  rw [hfe, ← List.count_eq_length_filter, List.Nodup.count hnd']
+  simp [List.mem_filter]
+
+/-! ### Non-vacuity: a concrete three-module state, one subscribe-all logger, one addressed message -/
+
+def exCfg : Cfg := {}
+def exState : State :=
+  { mods := [{ uid := 0, connected := true }, { uid := 1, modId := 10, connected := true, subs := [5000] },
+             { uid := 2, modId := 11, connected := true, subs := [5000] },
+             { uid := 3, modId := 12, connected := true, isLogger := true, subs := [2147483647] }],
+    idx := [(5000, [1, 2]), (2147483647, [3])], loggers := [3], wlist := [1, 2], nextUid := 3 }
+def exFrame : Frame := { mtype := 5000, src := 10, dest := 11, destHost := 0, nbytes := 4, body := .data 7 }
+
+/-- addressed to id 11: module 2 (addressed) and module 3 (logger, not even writable) get it, module 1 does not -/
+example : dataSends (isCopy 7) (forward exCfg 9 exState exFrame).out = [(2, exFrame), (3, exFrame)] := by decide
+example : (recipients exCfg exState 5000).Nodup ∧ exState.crashed = none ∧ outOfRange exCfg exFrame = false := by decide
 
 end Pyrtma.C01
